@@ -37,6 +37,9 @@ def _run_check(pid, P, fam, tier, seed, work, t0):
     mach = [v for v in val["viols"] if v["prop"] == "MACHINERY"]
     if mach:
         raise Machinery("trace contained events the trace spec does not know: %s" % mach[:3])
+    drift = [v for v in val["viols"] if v["prop"] == "DRIFT"]
+    for v in drift[:5]:
+        log("MODEL-DRIFT (reported, not a verdict): trace %d line %d %s %s" % (v["tid"], v["i"], v["aspect"], v["detail"][:200]))
     mine = [v for v in val["viols"] if v["prop"] == pid]
     tids = sorted({v["tid"] for v in mine})
     inputs = load_inputs(out, set(tids))
@@ -106,6 +109,7 @@ def _run_check(pid, P, fam, tier, seed, work, t0):
         known_findings_seen=sorted(known_hits.keys()),
         violating_inputs=len(unknown),
         driver_extra=meta.get("extra", {}),
+        model_drift_lines=len(drift),
     )
     wall = time.time() - t0
     write_evidence(pid, tier, seed, P["level"], cov, P.get("assumptions", []), wall, len(violations))
